@@ -178,7 +178,7 @@ GVisit(s, o) ==
     LET ap == IF s.asname # Nil THEN s.mod ELSE <<s.mod[1]>>
         an == IF s.asname # Nil THEN s.asname ELSE ap[1]
     IN  [name |-> an, target |-> ap, created |-> TRUE]
-  ELSE IF s.mod = <<>> /\ s.level = 1 /\ s.asname = Nil /\ IsInit[M] THEN
+  ELSE IF s.mod = <<>> /\ s.level = 1 /\ s.asname = Nil /\ IsModuleObj(o) /\ IsInit[M] THEN      \* ... and self.current.is_module
     [name |-> s.name, target |-> <<>>, created |-> FALSE]                  \* "Special case": continue
   ELSE
     LET ap == RelToAbs(s, M)
